@@ -363,22 +363,29 @@ def gen_combined_diff(rng, conflict=None):
     hl = []
     for _ in range(rng.randint(1, 3)):
         hl.append((rng.choice(["  ", "  ", "+ ", " +", "- ", " -", "++", "--"]), body()))
-    region = None
-    if conflict if conflict is not None else rng.random() < 0.7:
+    def gen_region():
         ours = [body() for _ in range(rng.randint(0, 3))]
         anc = [body() for _ in range(rng.randint(0, 3))] if rng.random() < 0.6 else None
         theirs = [body() for _ in range(rng.randint(0, 3))]
-        region = dict(ours=ours, anc=anc, theirs=theirs)
+        return dict(ours=ours, anc=anc, theirs=theirs)
+    region = None
+    regions = []
+    if conflict if conflict is not None else rng.random() < 0.7:
+        # one region mostly; sometimes several in one run (state carried from one region to the next)
+        regions = [gen_region() for _ in range(rng.choice([1, 1, 1, 2, 2, 3]))]
+        region = regions[0]
     for pre, b in hl:
         lines.append(pre + b)
-    if region:
+    for k, rg in enumerate(regions):
+        if k:
+            lines += ["  " + body() for _ in range(rng.randint(0, 2))]
         lines.append("++<<<<<<< HEAD")
-        lines += ["+ " + b for b in region["ours"]]
-        if region["anc"] is not None:
+        lines += ["+ " + b for b in rg["ours"]]
+        if rg["anc"] is not None:
             lines.append("++||||||| 1234567")
-            lines += ["++" + b for b in region["anc"]]
+            lines += ["++" + b for b in rg["anc"]]
         lines.append("++=======")
-        lines += [" +" + b for b in region["theirs"]]
+        lines += [" +" + b for b in rg["theirs"]]
         lines.append("++>>>>>>> branch")
     tail = [("  ", body()) for _ in range(rng.randint(0, 2))]
     for pre, b in tail:
